@@ -61,6 +61,7 @@ impl Tracked {
 }
 impl Clone for Tracked {
     fn clone(&self) -> Tracked {
+        tick("clone");
         let id = LEDGER.with(|l| {
             let mut l = l.borrow_mut();
             if !l.live.contains(&self.id) {
@@ -103,35 +104,40 @@ impl PartialEq for Tracked {
     }
 }
 thread_local! {
-    /// `Some(k)`: the k-th order comparison from now on panics (a sample type whose `PartialOrd` can fail, e.g. an
-    /// ordered float that rejects NaN); the budget disarms itself when it fires
-    static CMP_BUDGET: std::cell::Cell<Option<u64>> = std::cell::Cell::new(None);
-    static CMP_FIRED: std::cell::Cell<bool> = std::cell::Cell::new(false);
+    /// `Some(k)`: the k-th operation of the sample type from now on panics — an order comparison (an ordered float that
+    /// rejects NaN), a `clone` (allocation failure of a heap-backed sample), an arithmetic operation (overflow of a
+    /// checked number type); the budget disarms itself when it fires
+    static OP_BUDGET: std::cell::Cell<Option<u64>> = std::cell::Cell::new(None);
+    static OP_FIRED: std::cell::Cell<bool> = std::cell::Cell::new(false);
 }
 pub fn set_cmp_budget(b: Option<u64>) {
-    CMP_BUDGET.with(|c| c.set(b));
-    CMP_FIRED.with(|c| c.set(false));
+    OP_BUDGET.with(|c| c.set(b));
+    OP_FIRED.with(|c| c.set(false));
 }
 pub fn cmp_budget_fired() -> bool {
-    CMP_FIRED.with(|c| c.get())
+    OP_FIRED.with(|c| c.get())
+}
+/// one operation of the sample type that user code could fail in
+fn tick(what: &str) {
+    let fire = OP_BUDGET.with(|c| match c.get() {
+        Some(n) if n <= 1 => {
+            c.set(None);
+            true
+        }
+        Some(n) => {
+            c.set(Some(n - 1));
+            false
+        }
+        None => false,
+    });
+    if fire {
+        OP_FIRED.with(|c| c.set(true));
+        panic!("sample {} failed (operation budget of the instrumented sample type)", what);
+    }
 }
 impl PartialOrd for Tracked {
     fn partial_cmp(&self, o: &Tracked) -> Option<std::cmp::Ordering> {
-        let fire = CMP_BUDGET.with(|c| match c.get() {
-            Some(n) if n <= 1 => {
-                c.set(None);
-                true
-            }
-            Some(n) => {
-                c.set(Some(n - 1));
-                false
-            }
-            None => false,
-        });
-        if fire {
-            CMP_FIRED.with(|c| c.set(true));
-            panic!("sample comparison failed (comparison budget of the instrumented sample type)");
-        }
+        tick("comparison");
         self.q.partial_cmp(&o.q)
     }
 }
@@ -140,6 +146,7 @@ macro_rules! arith {
         impl $tr for Tracked {
             type Output = Tracked;
             fn $m(self, o: Tracked) -> Tracked {
+                tick("arithmetic");
                 Tracked::new($tr::$m(self.q, o.q))
             }
         }
